@@ -23,7 +23,7 @@ extern "C" vsched_stats vsched_end(void) { vsched_stats s; memset(&s, 0, sizeof 
 void (*vsched_on_deadlock)(const vsched_stats *) = nullptr;
 #endif
 
-extern "C" size_t libcsd_verif_memalloc = 32768;
+extern "C" int libcsd_verif_memalloc = 32768;
 
 namespace vh {
 
